@@ -5,40 +5,107 @@ package main
 
 import (
 	"fmt"
+	"strings"
 
 	"simrt"
 )
+
+// poolEpochRuns: runs with index in the same block of this size share one input
+// pool, so that the same inputs recur in many runs (= many processes with
+// different histories) and the driver can compare their results across processes;
+// different blocks use different pools, so that the whole batch still covers many
+// inputs.
+const poolEpochRuns = 400
 
 type poolInput struct {
 	kind    int
 	nilrecv bool
 	vec     string
+	family  int // >0: inputs of one family are variants of each other
 }
 
-// globalPool is a function of the base seed only, so that the same inputs recur
-// in many runs (= many processes with different histories); the driver compares
-// their results across processes.
-func globalPool(base uint64) (ins []poolInput, tmpls []string, tmplLevels []int) {
-	r := newRng(simrt.Mix(base, 0xC15))
-	for i := 0; i < 48; i++ {
+func defsFor(k int) []metricDef {
+	var d []metricDef
+	if kindIsV2(k) {
+		d = append(d, v2BaseDefs...)
+		d = append(d, v2TempDefs...)
+		d = append(d, v2EnvDefs...)
+	} else {
+		d = append(d, v3BaseDefs...)
+		d = append(d, v3TempDefs...)
+		d = append(d, v3EnvDefs...)
+	}
+	return d
+}
+
+// variantsOf derives near-collisions of a valid vector: the other CVSS 3.x
+// version, one metric changed to another of its codes, a group dropped.  Caches
+// keyed too coarsely confuse exactly such siblings.
+func variantsOf(r *rng, k int, v string) []string {
+	var out []string
+	toks := strings.Split(v, "/")
+	first := 0
+	if !kindIsV2(k) {
+		first = 1
+		t := append([]string{}, toks...)
+		if t[0] == "CVSS:3.1" {
+			t[0] = "CVSS:3.0"
+		} else {
+			t[0] = "CVSS:3.1"
+		}
+		out = append(out, strings.Join(t, "/"))
+	}
+	defs := defsFor(k)
+	for n := 0; n < 2 && len(toks) > first; n++ {
+		i := first + r.intn(len(toks)-first)
+		nv := strings.SplitN(toks[i], ":", 2)
+		for _, d := range defs {
+			if d.name == nv[0] && len(nv) == 2 {
+				alt := pick(r, d.vals)
+				if alt != nv[1] {
+					t := append([]string{}, toks...)
+					t[i] = d.name + ":" + alt
+					out = append(out, strings.Join(t, "/"))
+				}
+				break
+			}
+		}
+	}
+	if kindIsV2(k) && len(toks) > 9 {
+		out = append(out, strings.Join(toks[:len(toks)-5], "/")) // without the environmental group
+	}
+	return out
+}
+
+// epochPool is a function of (base seed, epoch) only.
+func epochPool(base, epoch uint64) (ins []poolInput, tmpls []string) {
+	r := newRng(simrt.Mix(simrt.Mix(base, 0xC15), epoch))
+	for i := 0; i < 30; i++ {
 		k := i % NKinds
 		var v string
 		switch {
-		case i < 18:
+		case i < 12:
 			v, _ = genValidVector(r, k)
-		case i < 30:
+		case i < 20:
 			v, _, _ = genVector(r, k, false)
 		default:
 			// decodes that abort half-way and leave a partially filled receiver
 			v, _ = genAbortVector(r, k)
 		}
-		ins = append(ins, poolInput{k, r.chance(1, 4), v})
+		ins = append(ins, poolInput{k, r.chance(1, 4), v, 0})
+	}
+	for f := 1; f <= 10; f++ {
+		k := []int{KV3Env, KV3Env, KV3Temporal, KV3Base, KV2Env, KV2Temporal, KV3Env, KV2Env, KV3Temporal, KV2Base}[f-1]
+		v, _ := genValidVector(r, k)
+		nr := r.chance(1, 4)
+		ins = append(ins, poolInput{k, nr, v, f})
+		for _, vv := range variantsOf(r, k, v) {
+			ins = append(ins, poolInput{k, nr, vv, f})
+		}
 	}
 	for i := 0; i < 12; i++ {
-		lvl := i % 3
-		t, _, _ := genTemplate(r, lvl)
+		t, _, _ := genTemplate(r, i%3)
 		tmpls = append(tmpls, t)
-		tmplLevels = append(tmplLevels, lvl)
 	}
 	return
 }
@@ -49,17 +116,26 @@ func genC15(d *RunDesc, tier string) {
 	d.MapSeed = simrt.Mix(d.Seed, 3)
 	d.MapPolicy = []int{simrt.MapCanonical, simrt.MapReversed, simrt.MapPermuted, simrt.MapPermuted, simrt.MapPermuted}[wl.intn(5)]
 	d.Sched.Policy = simrt.PolicyNone
-	gp, gt, _ := globalPool(d.BaseSeed)
+	gp, gt := epochPool(d.BaseSeed, d.RunIndex/poolEpochRuns)
 	// this run's pool
 	var pool []poolInput
 	n := wl.between(2, 10)
 	for i := 0; i < n; i++ {
-		pool = append(pool, pick(wl, gp))
+		in := pick(wl, gp)
+		pool = append(pool, in)
+		if in.family > 0 && wl.chance(2, 3) {
+			// pull in the siblings as well
+			for _, o := range gp {
+				if o.family == in.family && o.vec != in.vec {
+					pool = append(pool, o)
+				}
+			}
+		}
 	}
 	for i := wl.intn(3); i > 0; i-- {
 		k := wl.intn(NKinds)
 		v, _, _ := genVector(wl, k, false)
-		pool = append(pool, poolInput{k, wl.chance(1, 3), v})
+		pool = append(pool, poolInput{k, wl.chance(1, 3), v, 0})
 	}
 	tmpls := []string{pick(wl, gt), pick(wl, gt), pick(wl, gt)}
 	if wl.chance(1, 2) {
@@ -125,7 +201,20 @@ func genC15(d *RunDesc, tier string) {
 				op.Fault = &f
 			}
 			ops = append(ops, op)
+		case c < 91:
+			// decode again on a receiver that has already been used (and queried)
+			o := pick(wl, live)
+			in := pick(wl, pool)
+			ops = append(ops, Op{K: "redec", Obj: &Ref{I: o}, Vec: in.vec})
 		case c < 94:
+			// assign an exported field: the value another live object holds, or the invalid value
+			o := pick(wl, live)
+			op := Op{K: "set", Obj: &Ref{I: o}, IArg: wl.intn(64)}
+			if wl.chance(2, 3) {
+				op.Donor = &Ref{I: pick(wl, live)}
+			}
+			ops = append(ops, op)
+		case c < 96:
 			ops = append(ops, Op{K: "lkp", Fn: wl.intn(len(lookups)), SArg: pick(wl, lookupArgs), IArg: wl.intn(7), Lang: wl.intn(len(langs))})
 		default:
 			ops = append(ops, Op{K: "twin", Obj: &Ref{I: pick(wl, live)}, LB: wl.chance(1, 4)})
@@ -162,7 +251,8 @@ func runC15(d *RunDesc, res *RunResult) {
 				}
 				s := ctx.slot(op.Obj)
 				result = guard(func() string {
-					tw := doDecode(s.kind, s.nilrecv, s.vec)
+					// same decodes and assignments, but none of the queries
+					tw := s.rebuild()
 					var q any
 					if op.LB {
 						q = tw.recv
@@ -193,6 +283,9 @@ func runC15(d *RunDesc, res *RunResult) {
 				key, hasKey := ctx.opKey(op)
 				var target any
 				var before string
+				if op.K == "redec" || op.K == "set" {
+					res.Stats.count("state-changes-" + op.K)
+				}
 				if op.K == "obs" || op.K == "rep" || op.K == "snap" {
 					if p, _, ok := ctx.operand(op); ok && !isNilObj(p) {
 						target = p
